@@ -471,11 +471,11 @@ pub fn run(ctx: &Ctx) -> i32 {
     let u = Unify::new(ctx.quick());
     acc.pool(&u, "c07unify", true);
     let inv = Invariance {
-        n: if ctx.quick() { 4000 } else { 500_000 },
+        n: if ctx.quick() { 10_000 } else { 500_000 },
     };
     acc.pool(&inv, "c07inv", true);
     let ag = Agreement {
-        n: if ctx.quick() { 3200 } else { 480_000 },
+        n: if ctx.quick() { 9600 } else { 480_000 },
     };
     acc.pool(&ag, "c07agree", true);
     // Canary: the reference unifier rejects v0 = property[v0] and solves v0 = func[v1]->text.
